@@ -47,6 +47,7 @@ type Ctx struct {
 	Pkgs    []*PkgUnit
 	T0      time.Time
 	Notes   []string
+	Info    []string // reported in the evidence, not a reason for an inconclusive verdict
 	Keep    bool
 }
 
